@@ -326,26 +326,29 @@ impl ParallelPipeline {
 
         let num_operators = operators.len();
         let mut current_chunk = chunk;
+        // rows handed on together with a request for early termination still travel on
+        let mut keep_going = true;
 
         for i in 0..num_operators {
             let is_last = i == num_operators - 1;
 
             if is_last {
-                return operators[i].push(current_chunk, sink);
+                let downstream = operators[i].push(current_chunk, sink)?;
+                return Ok(keep_going && downstream);
             }
 
             // Intermediate: collect output
             let mut collector = ChunkCollector::new();
-            let continue_processing = operators[i].push(current_chunk, &mut collector)?;
+            keep_going &= operators[i].push(current_chunk, &mut collector)?;
 
-            if !continue_processing || collector.is_empty() {
-                return Ok(continue_processing);
+            if collector.is_empty() {
+                return Ok(keep_going);
             }
 
             current_chunk = collector.into_single_chunk();
         }
 
-        Ok(true)
+        Ok(keep_going)
     }
 
     /// Finalizes all operators in the chain.
@@ -388,25 +391,28 @@ impl ParallelPipeline {
     ) -> Result<bool, OperatorError> {
         let num_operators = operators.len();
         let mut current_chunk = chunk;
+        let mut keep_going = true;
 
         for i in start..num_operators {
             let is_last = i == num_operators - 1;
 
             if is_last {
-                return operators[i].push(current_chunk, sink);
+                let downstream = operators[i].push(current_chunk, sink)?;
+                return Ok(keep_going && downstream);
             }
 
             let mut collector = ChunkCollector::new();
-            let continue_processing = operators[i].push(current_chunk, &mut collector)?;
+            keep_going &= operators[i].push(current_chunk, &mut collector)?;
 
-            if !continue_processing || collector.is_empty() {
-                return Ok(continue_processing);
+            if collector.is_empty() {
+                return Ok(keep_going);
             }
 
             current_chunk = collector.into_single_chunk();
         }
 
-        sink.consume(current_chunk)
+        let downstream = sink.consume(current_chunk)?;
+        Ok(keep_going && downstream)
     }
 }
 
